@@ -456,6 +456,7 @@ def transform(
             mask_edges=mask_edges,
             bypass_checks=bypass_checks,
             logarithmic=(method == "log"),
+            suffix=suffix,
         )
     elif method == "conservative":
         if isinstance(target, xr.DataArray):
@@ -500,6 +501,7 @@ def transform(
             dim,
             target_data_dim,  # in this case the dimension of phi and theta are the same
             target_dim,
+            suffix=suffix,
         )
 
     return out
